@@ -1,5 +1,96 @@
-/- Engine `valid` (C07): not built yet. -/
+/-
+  Engine `valid` (C07).  One op line = one untrusted buffer:
+
+      V <bytes-hex>            (`-` = the empty buffer)
+
+  The buffer is an exact-size block; `rtosc_message_length(msg,n)` and
+  `rtosc_valid_message_p(msg,n)` run on it, and — only when the validator accepts — every reader:
+
+      len=<n> valid=<0|1> [as=<off>:<tags> n=<count> ty=<types> av=<arguments> it=<iterator>]
+
+  (same reader format as engine `osc`: strings as `@<offset>:<bytes>`, blobs as
+  `<len>@<offset>:<bytes>`).  If the model predicts a read outside the block the line is the
+  sanitizer's verdict `crash:asan:heap-buffer-overflow`; a loop that does not terminate is the
+  watchdog's `crash:signal:27`.
+
+      T <bytes-hex>            trigger of known finding C07-K1 (not sent to the implementation):
+                               `nc=<0|1>` (NonCanonical), `lax=<0|1>`, `strict=<0|1>`
+-/
+import RtoscModel.Osc.Valid
+import RtoscModel.Osc.Decode
 import Driver.Common
 namespace Driver.ValidEngine
-def engine : Driver.Engine := Driver.stateless (fun _ => "unimplemented")
+open Rtosc Rtosc.Osc
+
+def crash : String := "crash:asan:heap-buffer-overflow"
+def hang : String := "crash:signal:27"
+
+def hex32 (v : UInt32) : String := toHex (put32 v)
+def hex64 (v : UInt64) : String := toHex (put64 v)
+
+def showVal (m : Bytes) (t : UInt8) (v : CVal) : Option String :=
+  let p := hexByte t ++ ":"
+  match v with
+  | .zero => some (p ++ "-")
+  | .tf b => some (p ++ (if b then "1" else "0"))
+  | .w32 x => some (p ++ hex32 x)
+  | .w64 x => some (p ++ hex64 x)
+  | .midi a b c d => some (p ++ toHex [a, b, c, d])
+  | .str off =>
+    match CVal.view m (.str off) with
+    | some (.arg (.str s)) => some (p ++ "@" ++ toString off ++ ":" ++ toHex s)
+    | _ => none
+  | .blob len off =>
+    match CVal.view m (.blob len off) with
+    | some (.arg (.blob d)) => some (p ++ toString len.toNat ++ "@" ++ toString off ++ ":" ++ toHex d)
+    | _ => none
+
+def joinOpt (xs : List (Option String)) : Option String :=
+  (xs.mapM id).map fun l => if l.isEmpty then "-" else ",".intercalate l
+
+/-- all readers on the block `m` (`none`: some read leaves the block) -/
+def readers (m : Bytes) : Option String := do
+  let a ← argString m
+  let ts ← cstrAt m a
+  let n ← narguments m
+  let idx := List.range n
+  let tys ← idx.mapM (typeAt m)
+  let av ← joinOpt (idx.map fun i =>
+    match typeAt m i, V.argument m i with
+    | some t, some v => showVal m t v
+    | _, _ => none)
+  let itl ← V.iterate m
+  let it ← joinOpt (itl.map fun (t, v) => showVal m t v)
+  pure s!"as={a}:{toHex ts} n={n} ty={toHex tys} av={av} it={it}"
+
+def b01 (b : Bool) : String := if b then "1" else "0"
+
+def step (line : String) : String :=
+  match words line with
+  | ["V", h] =>
+    match ofHex h with
+    | none => "bad-op"
+    | some m =>
+      match V.messageLength m m.length with
+      | .oob => crash
+      | .spin => hang
+      | .ok len =>
+        match V.validMessageP m m.length with
+        | .oob => crash
+        | .spin => hang
+        | .ok false => s!"len={len} valid=0"
+        | .ok true =>
+          match readers m with
+          | none => crash
+          | some r => s!"len={len} valid=1 {r}"
+  | ["T", h] =>
+    match ofHex h with
+    | none => "bad-op"
+    | some m =>
+      let l := (Spec.decodeLax m).isSome
+      let s := (Spec.decode m).isSome
+      s!"nc={b01 (l && !s)} lax={b01 l} strict={b01 s}"
+  | _ => "bad-op"
+
+def engine : Driver.Engine := Driver.stateless step
 end Driver.ValidEngine
